@@ -279,7 +279,7 @@ def judge_history(ctx, h, res, pm):
         out["timeouts"] = 1
         return out
     if "crash" in res:
-        out["problems"].append(("crash", res["crash"], None))
+        out["crash"] = res["crash"]                # the process died inside RunString: no completed calculation to judge
         return out
     phases = dbinfo(h["db"])
     extra = h.get("extra_phases", {})
@@ -357,8 +357,8 @@ def judge_history(ctx, h, res, pm):
                 n_d += 1
             elif w[0] == "?":
                 raise RuntimeError("pmodel inventory: " + ln)
-        impossible = [k for k in inv_before if k != "Charge" and
-                      any(inv_before[k] + a.get(k, 0) < -Fraction(1, 10**15) for a in (added_k or [added]))]
+        impossible = sorted(k for k in set(inv_before) | set(added) | {x for a in added_k for x in a} if k != "Charge" and
+                            any(inv_before.get(k, 0) + a.get(k, 0) < -Fraction(1, 10**15) for a in (added_k or [added])))
         if impossible:
             # the reaction removes more of an element than the cell holds: the property's equation cannot be met; the
             # only conforming outcome is an error. Known finding when KINETICS lets the call finish without one.
@@ -800,6 +800,9 @@ def run(ctx):
         stats["worst_rel"] = max(stats["worst_rel"], j["worst"])
         stats["timeouts"] = stats.get("timeouts", 0) + j.get("timeouts", 0)
         stats["plan_mismatch"] = stats.get("plan_mismatch", 0) + j.get("missing", 0)
+        if "crash" in j:
+            stats["engine_crashes"] = stats.get("engine_crashes", 0) + 1
+            ctx.notes.append("engine crashed (outside C02, see C08): %s; input: %s" % (j["crash"][:80], json.dumps(h["sims"])[:3000]))
         stats["impossible_reactions"] = stats.get("impossible_reactions", 0) + j.get("impossible", 0)
         for key, what, sim in j.get("findings", []):
             stats["known_finding_simulations"] = stats.get("known_finding_simulations", 0) + 1
